@@ -256,6 +256,72 @@ Proof.
   repeat match goal with Hx : orb _ _ = true |- _ => apply orb_true_iff in Hx end. auto.
 Qed.
 
+(* ---- file and gate name the same members ---- *)
+
+Lemma bools_eqb_eq a : forall b, bools_eqb a b = true -> a = b.
+Proof.
+  induction a as [|x a IH]; intros [|y b]; cbn; try discriminate; [reflexivity|].
+  intro Hab. apply andb_true_iff in Hab as [Hxy Hr]. apply eqb_prop in Hxy. subst y.
+  f_equal. apply IH. exact Hr.
+Qed.
+
+Lemma store_gate_agree_state probes st :
+  stored st = None \/ stored st = Some (gate st) ->
+  store_gate_agree probes (view_of probes st) = true.
+Proof.
+  unfold store_gate_agree, view_of. cbn [v_stored v_dial v_secured].
+  intros [Hn|Hs]; [rewrite Hn; reflexivity|]. rewrite Hs.
+  unfold intercept_peer_dial, intercept_secured. rewrite !bools_eqb_refl. reflexivity.
+Qed.
+
+Lemma store_gate_agree_adopted probes t : store_gate_agree probes (view_of probes (adopted t)) = true.
+Proof. apply store_gate_agree_state. right. reflexivity. Qed.
+
+Lemma store_gate_agree_refresh H decrypt parse probes st ev :
+  store_gate_agree probes (view_of probes st) = true ->
+  store_gate_agree probes (view_of probes (fst (refresh H decrypt parse st ev))) = true.
+Proof.
+  intro Hc. destruct (refresh_cases H decrypt parse st ev) as [He|[t (_ & _ & _ & He)]]; rewrite He;
+    [exact Hc | apply store_gate_agree_adopted].
+Qed.
+
+Lemma store_gate_agree_run H decrypt parse probes evs : forall st,
+  store_gate_agree probes (view_of probes st) = true ->
+  store_gate_agree probes (view_of probes (run_refresh H decrypt parse st evs)) = true.
+Proof.
+  induction evs as [|ev r IH]; intros st Hc; [exact Hc|].
+  cbn [C13.run_refresh fold_left].
+  change (fold_left _ r ?x) with (run_refresh H decrypt parse x r).
+  apply IH. apply store_gate_agree_refresh. exact Hc.
+Qed.
+
+Lemma step_spec_model H decrypt parse probes st ev :
+  store_gate_agree probes (view_of probes st) = true ->
+  step_spec probes (announced_topo H decrypt parse ev)
+            (view_of probes st) (view_of probes (fst (refresh H decrypt parse st ev))) = true.
+Proof.
+  intro Hc. unfold step_spec. rewrite step_ok_model.
+  rewrite (store_gate_agree_refresh H decrypt parse probes st ev Hc). reflexivity.
+Qed.
+
+Lemma store_gate_agree_sound probes v t :
+  store_gate_agree probes v = true -> v_stored v = Some t ->
+  v_dial v = map (allowed t) probes /\ v_secured v = map (allowed t) probes.
+Proof.
+  unfold store_gate_agree. intros Ha Hs. rewrite Hs in Ha.
+  apply andb_true_iff in Ha as [Hd Hsec]. split; apply bools_eqb_eq; assumption.
+Qed.
+
+Lemma step_spec_sound probes ann before after :
+  step_spec probes ann before after = true ->
+  step_ok probes ann before after = true /\
+  (forall t, v_stored after = Some t ->
+             v_dial after = map (allowed t) probes /\ v_secured after = map (allowed t) probes).
+Proof.
+  unfold step_spec. intro Hs. apply andb_true_iff in Hs as [Hok Hag]. split; [exact Hok|].
+  intros t Ht. exact (store_gate_agree_sound probes after t Hag Ht).
+Qed.
+
 (* ---- sender attribution ---- *)
 
 Lemma sender_is_remote remote w :
